@@ -20,6 +20,9 @@ COMMON_NOTE = ("Trusted: the harness's dense long-double reference, the choice-s
                "Exploration only: the property is shown to hold on the generated cases (counts in the evidence file), nothing is proved.")
 
 INFO = {
+    "C14": dict(level="exploration", assumptions=COMMON_ASSUME + ["the diag flag of sp_?trsv is advisory for an (L,U) pair: the two unnatural spellings are judged for memory safety only"], note=COMMON_NOTE,
+                technique="property-based testing (rapidcheck): dense long-double reference for products and triangular systems with componentwise backward-error predicates, guard elements, bit-exact snapshots of inputs",
+                text="Generated factor pairs and rectangular matrices drive sp_?trsv (12 flag combinations), sp_?gemv/sp_?gemm (all documented spellings, alpha/beta, strides) and ?gstrs (nrhs, ldb, Trans); outputs are compared with a dense reference."),
     "C17": dict(level="exploration", assumptions=["optimality decided through LP duality (dual feasibility + complementary slackness) in the log domain with tolerance 64*n*eps*(1+max|log|)", "brute force over all permutations for n <= 7"], note=COMMON_NOTE,
                 technique="property-based testing (rapidcheck): LP-duality certificate check of the returned matching and scalings, brute-force differential for small n, reference bipartite matching for structural singularity",
                 text="Generated square matrices with wide magnitude ranges, ties and zero diagonals go through ?ldperm(job 5); the returned permutation and scalings are validated as an optimality certificate and against brute force."),
@@ -48,7 +51,7 @@ INFO = {
 
 NOT_APPLICABLE = {}
 
-PROPS = ["C01", "C02", "C03", "C04", "C05", "C10", "C11", "C17"]
+PROPS = ["C01", "C02", "C03", "C04", "C05", "C10", "C11", "C14", "C17"]
 
 
 def all_props():
